@@ -146,8 +146,14 @@ func (c *Handler) HandleTokenEndpointRequest(ctx context.Context, request fosite
 		return errorsx.WithStack(fosite.ErrServerError.WithWrap(err).WithDebug(err.Error()))
 	}
 
-	if err := c.Storage.DeletePKCERequestSession(ctx, signature); err != nil {
-		return errorsx.WithStack(fosite.ErrServerError.WithWrap(err).WithDebug(err.Error()))
+	// The PKCE session is consumed only by a request that passed every check below. Deleting it earlier
+	// would let a failed attempt (wrong or malformed verifier) remove the binding, after which a request
+	// without any verifier is treated as if the code had been issued without a challenge.
+	consume := func() error {
+		if err := c.Storage.DeletePKCERequestSession(ctx, signature); err != nil {
+			return errorsx.WithStack(fosite.ErrServerError.WithWrap(err).WithDebug(err.Error()))
+		}
+		return nil
 	}
 
 	challenge := pkceRequest.GetRequestForm().Get("code_challenge")
@@ -160,7 +166,7 @@ func (c *Handler) HandleTokenEndpointRequest(ctx context.Context, request fosite
 	nc := len(challenge)
 
 	if !c.Config.GetEnforcePKCE(ctx) && nc == 0 && nv == 0 {
-		return nil
+		return consume()
 	}
 
 	// NOTE: The code verifier SHOULD have enough entropy to make it
@@ -226,7 +232,7 @@ func (c *Handler) HandleTokenEndpointRequest(ctx context.Context, request fosite
 		}
 	}
 
-	return nil
+	return consume()
 }
 
 func (c *Handler) PopulateTokenEndpointResponse(ctx context.Context, requester fosite.AccessRequester, responder fosite.AccessResponder) error {
